@@ -36,12 +36,15 @@ int const PtStore::ptstore_vec_idx = 1;
 int const PtStore::ptstore_buf_idx = 2;
 
 bool PtStore::isAmbiguousNullarySymbolName(std::string_view name) const {
-    auto * values = symstore.getRefOrNull(name.data());
+    // name may be a view into a longer string (the inside of |...|): data() is not terminated at the end of the view
+    std::string const key(name);
+    auto * values = symstore.getRefOrNull(key.c_str());
     if (not values) { return false; }
     assert(values);
     int matches = 0;
     for (SymRef sr : *values) {
-        if (symstore[sr].nargs() == 0) { matches++; }
+        // a constant fixed by the language (the numeral 1) is no rival of a user symbol |1|: the bars tell them apart
+        if (symstore[sr].nargs() == 0 and not symstore[sr].isInterpreted()) { matches++; }
         if (matches > 1) return true;
     }
     return false;
